@@ -136,7 +136,7 @@ fn main() {
                 c15::replay(&v).unwrap_or(false)
             } else if h.starts_with("x2.life") || h.starts_with("x2.server-life") || h.starts_with("x2.push-life") {
                 c19::replay(&v).unwrap_or(false)
-            } else if h.starts_with("x2.acks") || h == "c14.fill" {
+            } else if h.starts_with("x2.acks") || h == "c14.fill" || h == "c14.table" {
                 c14::replay(&v).unwrap_or(false)
             } else if h.starts_with("x2.receiver") || h == "c03.fill" {
                 c03::replay(&v).unwrap_or(false)
